@@ -23,8 +23,31 @@ class CaseTimeout(Exception):
     pass
 
 
+TIMED_OUT = False
+
+
 def _alarm(signum, frame):
+    """Per-case timer (CPU-time ITIMER_PROF, plus a 10x wall-clock alarm for hung subprocesses).
+    Property code has broad `except BaseException` handlers (pyo3 panics), which may swallow the
+    exception raised here and classify it as a compiler failure.  So the firing is also latched:
+    a case during which a timer fired is reported `inconclusive`, whatever run_case returned —
+    a deadline on a loaded machine is never a verdict.  The timer re-arms so a swallowed timeout
+    keeps interrupting until the case returns."""
+    global TIMED_OUT
+    TIMED_OUT = True
+    signal.setitimer(signal.ITIMER_PROF, 20)
+    signal.alarm(60)
     raise CaseTimeout()
+
+
+def _arm(cpu_s: int) -> None:
+    signal.setitimer(signal.ITIMER_PROF, cpu_s)
+    signal.alarm(cpu_s * 10)
+
+
+def _disarm() -> None:
+    signal.setitimer(signal.ITIMER_PROF, 0)
+    signal.alarm(0)
 
 
 def case_rng(pid: str, seed: int, idx: int) -> random.Random:
@@ -59,12 +82,15 @@ def main() -> int:
         return 3
 
     signal.signal(signal.SIGALRM, _alarm)
+    signal.signal(signal.SIGPROF, _alarm)
+    global TIMED_OUT
     case_timeout = int(getattr(mod, "CASE_TIMEOUT_S", 120))
     for idx in job["indices"]:
         emit({"ev": "start", "idx": idx})
         rng = case_rng(job["prop"], job["seed"], idx)
         t0 = time.time()
-        signal.alarm(case_timeout)
+        TIMED_OUT = False
+        _arm(case_timeout)
         try:
             rec = mod.run_case(ctx, rng, idx, job["params"], job["tier"])
         except CaseTimeout:
@@ -75,7 +101,12 @@ def main() -> int:
             rec = {"status": "harness_error", "fp": None,
                    "detail": f"{type(e).__name__}: {e}", "tb": traceback.format_exc()[-3000:]}
         finally:
-            signal.alarm(0)
+            _disarm()
+        if TIMED_OUT:
+            rec = {"status": "inconclusive", "fp": None, "counters": {"case_timeouts": 1},
+                   "detail": f"case timer fired ({case_timeout}s CPU / {case_timeout * 10}s wall); "
+                             f"record discarded: {str(rec.get('status'))}"}
+            TIMED_OUT = False
         rec["t"] = round(time.time() - t0, 3)
         emit({"ev": "rec", "idx": idx, "rec": rec})
         if ctx is not None:
